@@ -17,6 +17,7 @@ from mc.runner import Result
 
 PROPERTY = "C15"
 LEVEL = "model_checking"
+TECHNIQUE = "bounded exhaustive enumeration of a grammar of xarray objects against native xarray (differential oracle)"
 ENGINE = "E1"
 RULE = (
     "state = (object kind DataArray|Dataset, dim order, grouper kind, reduction, skipna, min_count, keep_attrs, in-memory|chunked); every "
